@@ -84,3 +84,24 @@ package netconf
 // ---- C07 ----------------------------------------------------------------------------------------------------------------
 //@ func (*Driver).Close [C07]
 //@   ensures #channel-closed implClosed
+
+// ---- C08: the reader loop examines everything it has read, and files every complete message under its id ------------
+// bHead: ghost snapshot of the buffer at the top of the iteration. msgID: the id the loop extracts from a message.
+//@ ghost bHead []byte
+//@ chanmode Driver.errs count
+//@ chanmode Driver.done mailbox
+//@ spec msgID(b []byte) int := len(reSub(netconfPatternsInstance.messageID, b)) != 2 ? 0 : (atoiOK(reSub(netconfPatternsInstance.messageID, b)[1]) ? atoiVal(reSub(netconfPatternsInstance.messageID, b)[1]) : 0)
+//@ func (*Driver).storeSubscriptionMessage [C08]
+//@   requires d.subscriptions != nil
+//@   modifies keys(d.subscriptions), alloc()
+//@ func (*Driver).read [C08]
+//@   maintains RI(d.Channel.Q)
+//@   requires d.messages != nil && d.subscriptions != nil && netconfPatternsInstance != nil
+//@   requires d.errs != d.Channel.Q.depthChan && d.done != d.Channel.Q.depthChan
+//@   requires (d.SelectedVersion == "1.0" || d.SelectedVersion == "1.1") && d.Channel.PromptPattern == (d.SelectedVersion == "1.1" ? netconfPatternsInstance.v1Dot1Delim : netconfPatternsInstance.v1Dot0Delim)
+//@   modifies d.Channel.Q.queue, d.Channel.Q.depth, chan(d.Channel.Q.depthChan), chan(d.errs), chan(d.done), chan(d.Channel.Errs), keys(d.messages), keys(d.subscriptions), bHead, rd, alloc()
+//@   loop 1 invariant RI(d.Channel.Q)
+//@   loop 1 set bHead = b
+//@   at call Sleep#1 assert #unfinished-input-is-kept !reMatch(d.Channel.PromptPattern, bHead ++ rb) ==> b == bHead ++ rb
+//@   at call Sleep#1 assert #a-complete-message-is-filed-under-its-id-and-the-buffer-restarts reMatch(d.Channel.PromptPattern, bHead ++ rb) && !contains(bHead ++ rb, "</rpc>") ==> len(b) == 0 && (msgID(bHead ++ rb) != 0 ==> has(d.messages, msgID(bHead ++ rb)) && get(d.messages, msgID(bHead ++ rb)) == bHead ++ rb)
+//@   at call Sleep#1 assert #after-an-echo-only-the-part-behind-the-first-delimiter-is-kept reMatch(d.Channel.PromptPattern, bHead ++ rb) && contains(bHead ++ rb, "</rpc>") ==> b == reSplit(d.Channel.PromptPattern, bHead ++ rb, 2)[1]
